@@ -1,3 +1,4 @@
+import Std.Data.HashMap
 import MidnightZK.Model.Common
 import MidnightZK.Model.C04.Interp
 import MidnightZK.Gen.C04Gates
